@@ -106,7 +106,7 @@ type LitCase struct {
 
 const litPrelude = `function T(s) { var r = []; for (var i = 0; i < s.length; i++) r.push(s[i], s.raw[i]); for (var j = 1; j < arguments.length; j++) r.push(arguments[j]); return r; } var x, y = {};`
 
-func litCode(c LitCase) string { return strings.Replace(c.Ctx, "@", c.Lit, 1) }
+func litCode(c LitCase) string { return strings.ReplaceAll(c.Ctx, "@", c.Lit) }
 
 func judgeLits(cases []LitCase) []vdrv.Verdict {
 	vs := make([]vdrv.Verdict, len(cases))
@@ -160,6 +160,11 @@ func judgeLits(cases []LitCase) []vdrv.Verdict {
 		}
 		if ref != got {
 			vs[i] = vdrv.Fail("literal value changed: "+src+"  ⇒  "+strings.TrimSpace(outs[i]), ref, got)
+			if c.Ctx == shadowCtx && strings.Count(outs[i], "Infinity") >= 2 {
+				// known finding C01-infinity-literal-shadowed: an overflowing literal is printed as the
+				// identifier `Infinity`, which a local binding of that name captures
+				vs[i].Known = "C01-infinity-literal-shadowed"
+			}
 			continue
 		}
 		nontrivial := spellingChanged || strings.ContainsAny(c.Lit, "\\eE") || !isASCII(c.Lit)
@@ -192,7 +197,10 @@ func replayLit(raw json.RawMessage) vdrv.Verdict {
 
 // --- numbers
 
-var numCtx = []string{"x = @;", "x = (@).toString();", "x = (@).x;", "x = -@;", "x = (-@) ** 2;", "x = @ in y;", "x = Object.keys({ @: 1 });", "x = y[@];", "x = 1 - -@;", "x = 1 + +@;", "x = typeof @;", "x = [@, -@];", "x = @ / 3;", "x = { a: @ };", "x = 2 ** @;", "x = @ ** 2;", "x = - -@;", "x = 1 / @;", "x = `${@}`;", "x = (@)[\"toFixed\"](2);"}
+var numCtx = []string{"x = @;", "x = (@).toString();", "x = (@).x;", "x = -@;", "x = (-@) ** 2;", "x = @ in y;", "x = Object.keys({ @: 1 });", "x = y[@];", "x = 1 - -@;", "x = 1 + +@;", "x = typeof @;", "x = [@, -@];", "x = @ / 3;", "x = { a: @ };", "x = 2 ** @;", "x = @ ** 2;", "x = - -@;", "x = 1 / @;", "x = `${@}`;", "x = (@)[\"toFixed\"](2);", shadowCtx}
+
+// shadowCtx evaluates the literal where the global value names are shadowed by parameters.
+const shadowCtx = "x = (function (Infinity, NaN, undefined) { return [@, -@, 1 / @]; })(1, 2, 3);"
 
 func drawFloat(rt *rapid.T) float64 {
 	switch rapid.IntRange(0, 9).Draw(rt, "fclass") {
@@ -207,7 +215,7 @@ func drawFloat(rt *rapid.T) float64 {
 	case 4:
 		return math.Float64frombits(rapid.Uint64Range(0, 1<<53).Draw(rt, "subnormalish"))
 	case 5:
-		return rapid.SampledFrom([]float64{0, 1, 0.5, 1e21, 1e21 - 65536, 999999999999999868928, 1e-7, 1e-6, 123456789012345680000, 4294967295, 4294967296, 2147483648, 0.1, 0.2, 0.30000000000000004, 5e-324, 1.7976931348623157e308, 2.2250738585072014e-308, 9007199254740993, 18446744073709551615, 0xFFFFFFFFFFFFF800, 1000, 100, 1e3, 12e4, 0.001, 0.0001}).Draw(rt, "special")
+		return rapid.SampledFrom([]float64{0, 1, 0.5, 1e21, 1e21 - 65536, 999999999999999868928, 1e-7, 1e-6, 123456789012345680000, 4294967295, 4294967296, 2147483648, 0.1, 0.2, 0.30000000000000004, 5e-324, 1.7976931348623157e308, 2.2250738585072014e-308, 9007199254740993, 18446744073709551615, 0xFFFFFFFFFFFFF800, 1000, 100, 1e3, 12e4, 0.001, 0.0001, math.Inf(1), math.Inf(1)}).Draw(rt, "special")
 	case 6:
 		return float64(rapid.Uint32().Draw(rt, "u32"))
 	case 7:
@@ -219,7 +227,11 @@ func drawFloat(rt *rapid.T) float64 {
 
 func spellNumber(rt *rapid.T, f float64) (string, bool) {
 	f = math.Abs(f)
-	if math.IsNaN(f) || math.IsInf(f, 0) {
+	if math.IsInf(f, 0) {
+		// literals that overflow to Infinity
+		return rapid.SampledFrom([]string{"1e999", "2e308", "1.7976931348623159e308", "1" + strings.Repeat("0", 309), "0x" + strings.Repeat("f", 257), "1e309"}).Draw(rt, "overflow"), true
+	}
+	if math.IsNaN(f) {
 		return "", false
 	}
 	isInt := f == math.Trunc(f) && f < 1e21
